@@ -200,6 +200,14 @@ func TestVerif_C09(t *testing.T) {
 				t += time.Second / 9
 				suffix = append(suffix, uni(uint16(3200+k), t, ffcAt))
 			}
+			if idx%32 == 21 {
+				// ... and the same with a camera reset right before the FFC: the background is then
+				// seeded from scratch by the first frame after the period, and so is everything
+				// the detector knows about it
+				suffix = append([]detFrame{{Reset: true}}, suffix...)
+				via = idx%64 == 21
+				c.Count("crafted_weight_pairs_with_reset", 1)
+			}
 			c.Count("crafted_weight_pairs", 1)
 		}
 		ffcStated := 0
